@@ -55,7 +55,7 @@ func SpecHashSlot(key string) uint16 {
 
 //@ func Crc16
 //@   arith bv
-//@   properties C11
+//@   properties C11 C18
 //@   nopanic
 //@   opaque SpecCrc16Step
 //@   ensures crc_spec: result == SpecCrc16(buf, len(buf))
